@@ -1050,23 +1050,80 @@ def str_as_bytes(ex, args):
     s = as_str(args[0])
     out = []
     for c in s.chars:
-        if not isinstance(c, int): raise Unsupported('as_bytes on symbolic chars')
-        out += list(chr(c).encode('utf-8'))
+        if isinstance(c, int): out += list(chr(c).encode('utf-8'))
+        else:
+            ex.oblige(c < 128, 'model-domain', 'as_bytes model covers ASCII for symbolic chars')
+            out.append(c)
     return SliceV(VecV(out, 'bytes'), 0, len(out))
+
+
+def digit_value(c, radix):
+    """(is_digit, value) for a byte (python int or z3 Int)"""
+    if isinstance(c, int):
+        ch = chr(c)
+        try: v = int(ch, 36)
+        except ValueError: return False, 0
+        return (v < radix and ch.isalnum()), v
+    isd = z3.And(c >= 48, c <= 57, c - 48 < radix)
+    val = c - 48
+    if radix > 10:
+        lo = z3.And(c >= 97, c - 87 < radix, c <= 122); up = z3.And(c >= 65, c - 55 < radix, c <= 90)
+        return z3.Or(isd, lo, up), z3.If(isd, c - 48, z3.If(lo, c - 87, c - 55))
+    return isd, val
 
 
 @model(r'BigInt::parse_bytes')
 def bigint_parse_bytes(ex, args):
     buf = as_slice(args[0]); radix = args[1]
     items = buf.elems()
-    if not all(isinstance(b, int) for b in items): raise Unsupported('parse_bytes on symbolic bytes')
-    try: txt = bytes(items).decode('utf-8')
-    except UnicodeDecodeError: return none()
-    txt2 = txt.replace('_', '')
-    try:
-        if txt2 in ('', '+', '-') : return none()
-        return some(BigV(int(txt2, radix)))
-    except ValueError: return none()
+    if all(isinstance(b, int) for b in items):
+        try: txt = bytes(items).decode('utf-8')
+        except UnicodeDecodeError: return none()
+        txt2 = txt.replace('_', '')
+        try:
+            if txt2 in ('', '+', '-'): return none()
+            return some(BigV(int(txt2, radix)))
+        except ValueError: return none()
+    # symbolic digits (no sign / underscore handling: an obligation of the model's domain)
+    if not items: return none()
+    okc = []; val = 0
+    for b in items:
+        d, v = digit_value(b, radix)
+        okc.append(d); val = val * radix + v
+    allok = simp(b_and(*okc))
+    if ex.decide(allok) if is_sym(allok) else allok: return some(BigV(simp(val)))
+    ex.oblige(simp(b_and(*[b_and(eq(b, 43) is False or simp(b_not(eq(b, 43))), simp(b_not(eq(b, 45))), simp(b_not(eq(b, 95)))) for b in items])), 'model-domain', 'parse_bytes model: no sign or underscore among symbolic bytes')
+    return none()
+
+
+@model(r'<(u8|u16|u32|u64|usize) as (?:std::str::)?FromStr>::from_str')
+def uint_from_str(ex, args, m):
+    s = as_str(args[0]); lo, hi = INT_RANGE[m.group(1)]
+    if not s.chars: return err(Opaque('ParseIntError', 'Empty'))
+    okc = []; val = 0
+    for c in s.chars:
+        d, v = digit_value(c, 10)
+        okc.append(d); val = val * 10 + v
+    allok = simp(b_and(*okc))
+    if not (ex.decide(allok) if is_sym(allok) else allok): return err(Opaque('ParseIntError', 'InvalidDigit'))
+    val = simp(val)
+    fits = simp(zint(val) <= hi) if is_sym(val) else val <= hi
+    if ex.decide(fits) if is_sym(fits) else fits: return ok(val)
+    return err(Opaque('ParseIntError', 'PosOverflow'))
+
+
+@model(r'(?:std::result::)?Result::<.*>::unwrap_or')
+def res_unwrap_or(ex, args):
+    o = args[0]
+    return o.f[0] if o.var == 'Ok' else args[1]
+
+
+@model(r'<\[.*\] as (?:std::ops::)?Index<(?:std::ops::)?RangeFrom<usize>>>::index|(?:core::slice::index::)?<impl (?:std::ops::)?Index<(?:std::ops::)?RangeFrom<usize>> for \[.*\]>::index')
+def slice_index_from(ex, args):
+    s = as_slice(args[0]); r = deref(args[1]); a = r.f[0]
+    a = ex.concretize(a, 0, len(s) + 1) if is_sym(a) else a
+    if a > len(s): ex.panic('range start index %d out of range for slice of length %d' % (a, len(s)))
+    return SliceV(s.vec, s.lo + a, s.hi)
 
 
 @model(r'(?:std::cmp::|core::cmp::)?(max|min)::<(.*)>|<(.*) as Ord>::(max|min)')
